@@ -53,6 +53,11 @@ fn main() {
             println!("{}", if real == model.outcome { "AGREE" } else { "DISAGREE" });
         }
         Some("debug-large") => debug_large(),
+        Some("batch") => {
+            let seed: u64 = args[2].parse().unwrap();
+            let n: usize = args[3].parse().unwrap();
+            props::c03::print_batch(seed, n);
+        }
         Some("prop") => {
             // prop <id> <quick|thorough> <seed> [replay.json]
             let id = args[2].as_str();
